@@ -357,6 +357,9 @@ func Gen(c *core.Ctx) {
 			add(c, "opts-rand-body", "ndp.opts "+core.Hex(b))
 		}
 	}
+	for _, b := range ndpgen.Boundary(r) {
+		add(c, "opts-boundary", "ndp.opts "+core.Hex(b))
+	}
 	n := c.Scale(20000, 600000)
 	for i := 0; i < n; i++ {
 		b := ndpgen.RandOptions(r, 5)
